@@ -91,7 +91,9 @@ StringDictionaryRPFC::StringDictionaryRPFC(IteratorDictString *it,
     {
       // Extracting the internal strings for Re-Pair compression
 
-      if ((ptrpdict + (size_t)(bucketsize * maxlength)) > reservedInts)
+      // Each internal string takes up to maxlength symbols plus its VByte
+      // prefix length and the two-symbol separator
+      while ((ptrpdict + (size_t)bucketsize * (maxlength + 8)) > reservedInts)
         reservedInts = Reallocate(&rpdict, reservedInts);
 
       // Stores the last position with 0 to avoid confusions with 0 values
